@@ -12,6 +12,7 @@ import (
 
 	"github.com/safing/portbase/database"
 	"github.com/safing/portbase/database/record"
+	"github.com/safing/portbase/database/storage"
 	_ "github.com/safing/portbase/database/storage/bbolt"
 	_ "github.com/safing/portbase/database/storage/hashmap"
 	"github.com/safing/portbase/formats/dsd"
@@ -80,7 +81,8 @@ var dbCounter atomic.Uint64
 type world struct {
 	sc     *Scenario
 	db     string
-	push   pbruntime.PushFunc // injected backend only
+	push   pbruntime.PushFunc    // injected backends only
+	store  func(r record.Record) // injected backends: the provider/storage takes over a value it is about to push
 	prov   *mapProvider
 	parks  *parkSet
 	jitter *jitter
@@ -106,18 +108,52 @@ func newWorld(sc *Scenario) (*world, error) {
 			return nil, err
 		}
 		reg := pbruntime.NewRegistry()
-		if err := reg.InjectAsDatabase(w.db); err != nil {
-			return nil, err
+		if !sc.InjectLate {
+			if err := reg.InjectAsDatabase(w.db); err != nil {
+				return nil, err
+			}
 		}
 		w.prov = &mapProvider{m: map[string]record.Record{}}
 		// "a/" (covers a/b/) and "c/" are managed; "d/" is not: writes there fail.
-		var err2 error
-		w.push, err2 = reg.Register("a/", w.prov)
+		pushA, err2 := reg.Register("a/", w.prov)
 		if err2 != nil {
 			return nil, err2
 		}
-		if _, err2 = reg.Register("c/", w.prov); err2 != nil {
+		pushC, err2 := reg.Register("c/", w.prov)
+		if err2 != nil {
 			return nil, err2
+		}
+		if sc.InjectLate {
+			if err := reg.InjectAsDatabase(w.db); err != nil {
+				return nil, err
+			}
+		}
+		w.store = func(r record.Record) { _, _ = w.prov.Set(r) }
+		w.push = func(rs ...record.Record) {
+			// every provider pushes through its own PushFunc
+			for _, r := range rs {
+				if strings.HasPrefix(r.DatabaseKey(), "c/") {
+					pushC(r)
+				} else {
+					pushA(r)
+				}
+			}
+		}
+	case "injmap":
+		_, err := database.Register(&database.Database{Name: w.db, Description: "C14 injected map", StorageType: database.StorageTypeInjected})
+		if err != nil {
+			return nil, err
+		}
+		ms := &mapStorage{m: map[string]record.Record{}}
+		ctrl, err := database.InjectDatabase(w.db, ms)
+		if err != nil {
+			return nil, err
+		}
+		w.store = func(r record.Record) { _, _ = ms.Put(r) }
+		w.push = func(rs ...record.Record) {
+			for _, r := range rs {
+				ctrl.PushUpdate(r)
+			}
 		}
 	default:
 		return nil, fmt.Errorf("unknown backend %q", sc.Backend)
@@ -126,9 +162,49 @@ func newWorld(sc *Scenario) (*world, error) {
 }
 
 func (sp IfaceSpec) open() *database.Interface {
-	return database.NewInterface(&database.Options{Local: sp.Local, Internal: sp.Internal,
-		AlwaysMakeSecret: sp.Secret, AlwaysMakeCrownjewel: sp.Crown, CacheSize: sp.Cache})
+	o := &database.Options{Local: sp.Local, Internal: sp.Internal,
+		AlwaysMakeSecret: sp.Secret, AlwaysMakeCrownjewel: sp.Crown, CacheSize: sp.Cache, AlwaysSetRelativateExpiry: sp.RelExp}
+	if sp.AbsExp > 0 {
+		o.AlwaysSetAbsoluteExpiry = time.Now().Unix() + sp.AbsExp
+	}
+	return database.NewInterface(o)
 }
+
+// mapStorage is a minimal injected storage (database.InjectDatabase) that, unlike
+// the runtime registry, supports Delete: deletes on an injected database (always
+// ShadowDelete=false) can succeed and must be delivered. Like hashmap it hands out
+// the stored object itself.
+type mapStorage struct {
+	storage.InjectBase
+	mu sync.RWMutex
+	m  map[string]record.Record
+}
+
+func (s *mapStorage) Get(key string) (record.Record, error) {
+	s.mu.RLock()
+	defer s.mu.RUnlock()
+	r, ok := s.m[key]
+	if !ok {
+		return nil, storage.ErrNotFound
+	}
+	return r, nil
+}
+
+func (s *mapStorage) Put(r record.Record) (record.Record, error) {
+	s.mu.Lock()
+	defer s.mu.Unlock()
+	s.m[r.DatabaseKey()] = r
+	return r, nil
+}
+
+func (s *mapStorage) Delete(key string) error {
+	s.mu.Lock()
+	defer s.mu.Unlock()
+	delete(s.m, key)
+	return nil
+}
+
+func (s *mapStorage) ReadOnly() bool { return false }
 
 // mapProvider is the value provider behind the injected runtime database.
 type mapProvider struct {
@@ -315,6 +391,29 @@ func (p *park) waitReached(d time.Duration) bool {
 		return true
 	case <-time.After(d):
 		return false
+	}
+}
+
+// waitReachedOr additionally returns (false, true) as soon as the operation that was
+// expected to pass the point has finished without passing it.
+func (p *park) waitReachedOr(done <-chan struct{}, d time.Duration) (reached, bypassed bool) {
+	select {
+	case <-p.reached:
+		return true, false
+	default:
+	}
+	select {
+	case <-p.reached:
+		return true, false
+	case <-done:
+		select {
+		case <-p.reached:
+			return true, false
+		default:
+		}
+		return false, true
+	case <-time.After(d):
+		return false, false
 	}
 }
 
